@@ -455,7 +455,9 @@ impl ParsedValue {
                 if depth == 0 {
                     // use the untrimmed length, the whitespaces are part of the tag
                     let end_i = i + ident_len + 2;
-                    indices = Some((i, end_i))
+                    indices = Some((i, end_i));
+                    // this one closes the component, a later stray `</key>` is text.
+                    break;
                 } else {
                     depth -= 1;
                 }
